@@ -397,7 +397,9 @@ Definition post_before_authz (o : op) : bool :=
   | ManageU2F _ => true   (* since fix 2b03847: tokens are only changed by POST *)
   | _ => false end.
 Definition post_after_authz (o : op) : bool :=
-  match o with AddUser | DeleteUser | NewBootstrapOTP | RoleCert => true | _ => false end.
+  match o with AddUser | DeleteUser | NewBootstrapOTP | RoleCert => true
+  | U2FRegFinish | WARegFinish => true   (* since fix 6ebb558: a registration is only finished by POST *)
+  | _ => false end.
 
 Definition step (c : cfg) (s : store) (r : request) : store * resp :=
   match authenticate (required_for c (r_op r)) (resolve c (r_cred r)) with
